@@ -413,6 +413,31 @@ func validateArbitraryData(ms *MidState, txn types.Transaction) error {
 	return nil
 }
 
+// indicesInRange reports whether every index in idx is less than n.
+func indicesInRange(idx []uint64, n int) bool {
+	for _, i := range idx {
+		if i >= uint64(n) {
+			return false
+		}
+	}
+	return true
+}
+
+// coveredFieldsInRange reports whether every index in cf refers to a field
+// present in txn. The signature hash functions index txn with these values.
+func coveredFieldsInRange(txn types.Transaction, cf types.CoveredFields) bool {
+	return indicesInRange(cf.SiacoinInputs, len(txn.SiacoinInputs)) &&
+		indicesInRange(cf.SiacoinOutputs, len(txn.SiacoinOutputs)) &&
+		indicesInRange(cf.FileContracts, len(txn.FileContracts)) &&
+		indicesInRange(cf.FileContractRevisions, len(txn.FileContractRevisions)) &&
+		indicesInRange(cf.StorageProofs, len(txn.StorageProofs)) &&
+		indicesInRange(cf.SiafundInputs, len(txn.SiafundInputs)) &&
+		indicesInRange(cf.SiafundOutputs, len(txn.SiafundOutputs)) &&
+		indicesInRange(cf.MinerFees, len(txn.MinerFees)) &&
+		indicesInRange(cf.ArbitraryData, len(txn.ArbitraryData)) &&
+		indicesInRange(cf.Signatures, len(txn.Signatures))
+}
+
 func validateSignatures(ms *MidState, txn types.Transaction) error {
 	// build a map of all outstanding signatures
 	//
@@ -471,7 +496,9 @@ func validateSignatures(ms *MidState, txn types.Transaction) error {
 			copy(epk[:], pk.Key)
 			copy(esig[:], sig.Signature)
 			var sigHash types.Hash256
-			if sig.CoveredFields.WholeTransaction {
+			if !coveredFieldsInRange(txn, sig.CoveredFields) {
+				return fmt.Errorf("signature %v covers fields not present in transaction", i)
+			} else if sig.CoveredFields.WholeTransaction {
 				sigHash = ms.base.WholeSigHash(txn, sig.ParentID, sig.PublicKeyIndex, sig.Timelock, sig.CoveredFields.Signatures)
 			} else {
 				sigHash = ms.base.PartialSigHash(txn, sig.CoveredFields)
